@@ -12,9 +12,15 @@
   Import-free apart from model/generated files (linked into the driver).
 -/
 import Upnp.Model.C10Notify
+import Upnp.Gen.C11Race
 namespace Upnp.C11
 open Upnp PyDict Upnp.C09 Upnp.C10
 variable [FloatOracle]
+
+/-- the event granularity of this model is that of the code: `handle_notify` has no suspension point and, once the
+    SID is registered, `async_subscribe` suspends nowhere but in the replay's `await self.handle_notify(…)` (which
+    itself never yields) — read from the source by `tools/gen_c11race.py`, pinned by `C11.atomicity_pinned` -/
+def atomicOk : Bool := Gen.C11Race.handleNotifyAwaits == 0 && Gen.C11Race.tailOtherAwaits == 0
 
 inductive Ev
   | start (svc : Nat) (timeout : Int)
